@@ -9,12 +9,20 @@ CFG = {
             {"prop": "C18", "share": 0.18, "name": "free-race-server", "race": True, "env": RACE_ENV, "workers": 8},
             {"prop": "C14", "share": 0.14, "name": "free-race-e2e", "race": True, "env": RACE_ENV, "workers": 8},
             {"prop": "C16", "share": 0.08, "name": "free-race-tcp-relay", "race": True, "env": RACE_ENV, "workers": 8},
-            {"prop": "C13", "share": 0.14, "name": "free-race-client-relay", "race": True, "env": RACE_ENV, "workers": 8},
-            {"prop": "C12", "share": 0.1, "name": "free-race-client-transactions", "race": True, "env": RACE_ENV, "workers": 8},
+            {"prop": "C13", "share": 0.12, "name": "free-race-client-relay", "race": True, "env": RACE_ENV, "workers": 8},
+            {"prop": "C12", "share": 0.08, "name": "free-race-client-transactions", "race": True, "env": RACE_ENV, "workers": 8},
+            {"prop": "C17-concurrent", "share": 0.04, "name": "free-race-concurrent-auth", "race": True, "env": RACE_ENV, "workers": 8},
         ],
         "evidence": {"race_detector": "the free-race passes run the server-world plans (UDP and TCP listeners, TCP relay with scripted clients and with the real client's TCPAllocation - Dial, Accept, data connections; real client + real server) and the client-world plans "
                      "(real client against the scripted server: concurrent WriteTo/ReadFrom/Close/transactions) on a -race build in "
                      "free-running mode: no scheduler steps, no harness locks or counters on library paths (except simnet's own registry lock when a TCP connection is made or closed), timers as the only network, GOMAXPROCS 4, half of the short gaps between operations collapsed to zero so that calls really coincide; "
                      "a report with pion/turn frames kills the worker and is replayed"},
+    },
+    "C17": {
+        "passes": [
+            {"prop": "C17", "share": 0.8, "name": "handlers-and-e2e"},
+            {"prop": "C17-concurrent", "share": 0.2, "name": "free-race-concurrent-auth", "race": True, "env": RACE_ENV, "workers": 8},
+        ],
+        "evidence": {"race_detector": "one pass runs several real clients of a stream listener authenticating at the same instants through the real long-term / TURN-REST handlers, free-running on a -race build (the handler is shared by the connections' goroutines)"},
     },
 }
